@@ -206,6 +206,9 @@ pub enum OpKind {
     Attack(String),
     /// a well-typed operation on un-modelled cells: (text, history-independent result if any)
     Valid(String, Option<i64>),
+    /// `(*p)[std.len(*p) - 1]` on an array cell: the index expression reads the indexed cell again
+    /// (two reads: no atomicity claim, but it must neither block nor panic)
+    IndexSelf,
 }
 
 #[derive(Clone, Debug, PartialEq)]
@@ -266,6 +269,7 @@ impl Op {
             OpKind::AddViaParam(k) => format!("addto({p}, {k})"),
             OpKind::Attack(text) => text.clone(),
             OpKind::Valid(text, _) => text.clone(),
+            OpKind::IndexSelf => format!("(*{p})[std.len(*{p}) - 1]"),
             OpKind::ApplyViaParam(op, k) => format!("apply({p}, {k}, {})", INT_OPS.iter().position(|o| o == op).unwrap_or(0)),
             OpKind::TransferFrom(op, c2, p2) => format!("{p} {op}= *{}", path_src(*c2, *p2)),
             OpKind::CompareContents(c2, p2) => format!("*{} == *{}", if p.starts_with('*') { format!("({p})") } else { p.clone() }, path_src(*c2, *p2)),
@@ -327,6 +331,7 @@ fn kind_json(k: &OpKind) -> Value {
         OpKind::AddViaParam(k) => json!({"add_via_param": k}),
         OpKind::Attack(t) => json!({"attack": t}),
         OpKind::Valid(t, r) => json!({"valid": [t, r]}),
+        OpKind::IndexSelf => json!("index_self"),
         OpKind::ApplyViaParam(op, k) => json!({"apply_via_param": [op, k]}),
         OpKind::TransferFrom(op, c, p) => json!({"transfer_from": [op, c, p]}),
         OpKind::CompareContents(c, p) => json!({"compare_contents": [c, p]}),
@@ -348,6 +353,7 @@ fn kind_from_json(v: &Value) -> OpKind {
             "self_tie" => OpKind::SelfTie,
             "read_via_param" => OpKind::ReadViaParam,
             "pair_tie" => OpKind::PairTie,
+            "index_self" => OpKind::IndexSelf,
             o => panic!("bad op kind {o}"),
         };
     }
@@ -574,6 +580,10 @@ impl Model {
             OpKind::Attack(_) => Expect::Rejected,
             OpKind::Valid(_, Some(n)) => Expect::Value(Val::Int(*n)),
             OpKind::Valid(_, None) => Expect::Unchecked,
+            OpKind::IndexSelf => match &self.heap[target] {
+                Val::Arr(xs) if !xs.is_empty() => Expect::Value(xs[xs.len() - 1].clone()),
+                _ => Expect::Unchecked,
+            },
             OpKind::ApplyViaParam(o, k) => match compound(o, &self.heap[target], &Val::Int(*k)) {
                 Ok(r) => {
                     self.heap[target] = r.clone();
@@ -791,6 +801,7 @@ pub fn gen_op(rng: &mut Rng, cfg: &GenCfg, unique: &mut i64) -> Op {
                 }
             },
             Kind::ArrInt => match k {
+                90..=94 => OpKind::IndexSelf,
                 0..=19 => OpKind::Set(Val::Arr(vec![Val::Int(next_unique())])),
                 20..=64 => OpKind::Compound("+".into(), Val::Arr(vec![Val::Int(next_unique())])),
                 65..=89 => OpKind::Get,
